@@ -22,11 +22,46 @@ def run(ctx, res):
         "build_pretty_string_item with identical arguments except the literal `coloring`; inside, `coloring` only selects the "
         "colour strings, which flow only into push_str and capacity computations; every colour constant is ESC [ digits m and "
         "no other constant contains ESC; R3 the backward scanner examines byte 0 (files whose first byte is a line break).  "
-        "Not decided: columns, widths, tab expansion, marker placement (rendering arithmetic).")
+        "R4 the code block is pushed through an unconditional replace(tab, four spaces).  Not decided: columns, widths, marker placement (rendering arithmetic).")
     res.trusted += ["serde_json serialises a derived struct as an object with its field names, a unit variant as its name", "driver fact extraction and the abstract interpreter"]
     schema(ctx, res, "C16.R1")
     colour(ctx, res, "C16.R2")
     deletion.byte0_examined(ctx, res, "C16.R3")
+    tabs_expanded(ctx, res, "C16.R4")
+
+
+def tabs_expanded(ctx, res, rule):
+    """The code block is pushed into the item through `.replace("\\t", TABSPACE)` unconditionally, with TABSPACE = 4 spaces."""
+    from .. import oblig
+    P = ctx.lib
+    b = P.fn("list::build_pretty_string_item")
+    fn = fshort(b)
+    tabspace = [v for bd in P.facts["bodies"] if bd["kind"].startswith("Const") and bd["def_path"].endswith("list::TABSPACE") for v in [T.lit_value(bd["tree"])]]
+    if tabspace == ["    "]:
+        res.holds(rule, "code::list", "tabspace-const", "four spaces")
+    else:
+        res.add(Finding(rule, "code::list", "tabspace-const", "TABSPACE is %r, tabs must expand to four spaces" % (tabspace,), loc=T.loc(b["tree"])))
+    cb = [s for s in T.nodes(b["tree"], "let") if s["pat"]["p"] == "tuple" and any(x.get("name") == "code_block" for x in s["pat"]["pats"])]
+    if not cb:
+        res.cannot(rule, fn, "code-block", "local `code_block` not found", T.loc(b["tree"]))
+        return
+    cid = [x["id"] for x in cb[0]["pat"]["pats"] if x.get("name") == "code_block"][0]
+    uses = [(n, par) for n, par in T.walk(b["tree"]) if n.get("k") == "path" and T.local_of(n) == cid]
+    okk = len(uses) >= 1
+    for n, par in uses:
+        p = par[-1]
+        i = len(par) - 1
+        while p.get("k") in ("addr_of",) or (p.get("k") == "unary" and p.get("op") == "*"):
+            i -= 1
+            p = par[i]
+        rep = p.get("k") == "mcall" and p["name"] == "replace" and T.lit_value(p["args"][0]) == "\t" and T.render(p["args"][1]).endswith("TABSPACE")
+        conditional = any(q.get("k") in ("if", "match") for q in par[: i])
+        if not rep or conditional:
+            okk = False
+            res.add(Finding(rule, fn, "tab-expansion:" + T.render(p)[:60], "the code block reaches the item through `%s`%s: tabs must be expanded to TABSPACE unconditionally"
+                            % (T.render(p)[:80], " under a condition" if conditional else ""), loc=T.loc(n)))
+    if okk:
+        res.holds(rule, fn, "tab-expansion", "code_block.replace(\"\\t\", TABSPACE), unconditional")
 
 
 def schema(ctx, res, rule):
